@@ -197,11 +197,11 @@ PROPS = {
                  "graph. non-trivial = at least one error entry and one module." + REG_TEXT + " Fault-heavy flavour (28% per document/file). A case "
                  "whose real build does not return within the watchdog limit is reported as a violation (non-termination)"),
         "assumptions": [
-            "stage B1 (see C01) and stage B2 (registry); npm resolution failures and undecodable module bytes are not enumerated",
+            "stage B1 (see C01) and stage B2 (registry); npm resolver faults (rejected requirements, failing dependency-graph resolution) are sampled in the B1 stream, not enumerated; undecodable module bytes are not enumerated",
             "worlds where a module is answered under another final specifier are compared with the model but left out of the fault-locality oracle",
             "fixed: F-C03b (self-redirect left a pending entry) 76358fe; F-C03c (unjoinable export value panicked) a6fa026; F-C03d (add_dependency panicked on a package never ensured) ccf7036; F-C03e (a build that never returned: two-hop redirect whose end imports the first hop) 50c93c4 - all found by this machinery and repaired in /repo",
         ],
-        "partial": ["termination of the build loop is not proved (fuel; checked per case by the model never running out of fuel and the real build returning under a watchdog)", "npm resolution faults not covered"],
+        "partial": ["termination of the build loop is not proved (fuel; checked per case by the model never running out of fuel and the real build returning under a watchdog)", "npm resolver faults sampled only (the no-pending theorems cover the resolver stage: npm_fill adds finished entries only)"],
     },
     "C04": {
         "harness": "c04",
